@@ -52,6 +52,13 @@ def _mods(version):
     return R, ops, Subject, Client, Base, factory, Chan, bp
 
 
+class _Frozen(list):
+    """A log as it stood at quiescence; later entries are kept apart."""
+
+    def append(self, x):
+        self.__dict__.setdefault('late', []).append(x)
+
+
 class ObsLog:
     def __init__(self, world, who):
         self.world = world
@@ -314,6 +321,13 @@ async def _scenario(rng, d):
             all(q.empty() for q in link.queues.values())
         if len(world.events) == n and idle:
             break
+    # what the harness's own teardown below still causes (an on_error for an interaction that was hanging) must not
+    # be mistaken for the library delivering a terminal signal
+    for o in (client_obs, server_obs, res.get('core_sub'), world.inter[iid].get('up_subscriber')):
+        if o is not None and hasattr(o, 'log'):
+            o.log = _Frozen(o.log)
+    if res.get('core_future') is not None and not res['core_future'].done():
+        res['core_future_pending_at_quiescence'] = True
     res['world'] = world
     res['link'] = link
     res['req'] = pkey(req_payload)
@@ -435,7 +449,7 @@ def judge(d, res):
     elif model == 'rr':
         fut = res['core_future']
         got_vals, term = [], []
-        if fut.done() and not fut.cancelled():
+        if fut.done() and not fut.cancelled() and not res.get('core_future_pending_at_quiescence'):
             if fut.exception() is None:
                 k = pkey(fut.result())
                 got_vals = [k] if (k[0] or k[1]) else []
